@@ -77,8 +77,8 @@ def run(ctx):
         "group = prime-order module over its scalar field (BLS12-381 G1 / Fr); arkworks curve and pairing arithmetic, SHA3/SHA2, ed25519 are not modelled",
         "rejection of tampered credentials is relative to soundness of the sigma/range proofs (C07/C11), unforgeability of PS signatures "
         "and collision resistance of the transcript hash - exercised by the perturbation stream, not theorems",
-        "completeness of the composed credential proof is proved relative to named completeness hypotheses for com_mult, com_eq_sig, com_enc_eq, "
-        "the range proof and the account signatures (cdi_complete_partial)",
+        "completeness of the composed credential proof (cdi_complete_partial) uses C07's completeness lemmas for com_mult, com_eq_sig, com_enc_eq and the "
+        "And/Replicate adapters; completeness of the range proof (C11) and of the account signatures remain named hypotheses",
         "field encoders are assumed self-delimiting (what Deserial provides, C05); the two uncounted variable-length transcript parts are compared at equal length",
         "prover randomness inside generate_pio/create_credential comes from thread_rng (not seedable); configurations derive from the seed",
         "attribute-list encodings / policy JSON belong to C05/C16",
